@@ -57,11 +57,11 @@ fn check_windows(obs: &[Obs], rate: f64, what: &str, filter: impl Fn(&Obs) -> bo
                 latest_after = v[j].after;
             }
             let span = latest_after.duration_since(v[i].before).as_secs_f64();
-            let bound = rate + rate * span + 1.0;
+            let bound = rate + rate * span + 1e-3;
             if count as f64 > bound {
                 return Err(Failure::new(
                     "rate_bound_exceeded",
-                    format!("{}: {} requests admitted in a window of {:.6} s (calls {}..{} of {}), bound burst {} + rate x interval + 1 = {:.3}", what, count, span, i, j, n, rate, bound),
+                    format!("{}: {} requests admitted in a window of {:.6} s (calls {}..{} of {}), bound burst {} + rate x interval = {:.3}", what, count, span, i, j, n, rate, bound),
                 )
                 .with_sig(json!({"kind": "rate_bound_exceeded", "scope": what.split(' ').next().unwrap_or("")})));
             }
@@ -239,7 +239,7 @@ impl Prop for C19 {
 }
 
 pub fn main(ctx: &Ctx) {
-    ctx.assume("bounds use the caller's clock from before the first to after the last call of each window plus one token of slack, so elapsed time can only loosen them");
+    ctx.assume("bounds use the caller's clock from before the first to after the last call of each window (plus 0.001 token for floating-point rounding), so elapsed time can only loosen them");
     ctx.assume("the refund and no-false-refusal rules are judged on single-threaded scripts only");
     run_committed_replays(ctx, &C19);
     run_pbt(ctx, &C19, ctx.tier.pick(400, 6_000));
